@@ -138,7 +138,21 @@ def gen_case(rng, backend):
         comps.append({"col": col, "m": [m1, 1 - m1], "u": [u1, 1 - u1],
                       "tf": rng.random() < (0.6 if col == "a" else 0.2)})
     rules = rng.sample(ATOMS, rng.choice([0, 1, 2, 2]))
-    return {"backend": backend, "link_type": lt, "names": names, "tables": tables, "comparisons": comps,
+    # raw tables for the standalone exploratory functions: no id column, few distinct values, so
+    # rows are exactly duplicated within a table and across tables (tables are bags)
+    nraw = rng.choice([2, 2, 3])
+    pool = [{"a": rng.choice(["x", "y", None]), "b": rng.choice(["p", None, "q"])} for _ in range(3)]
+    raw = []
+    for t in range(nraw):
+        rows_t = [dict(rng.choice(pool)) for _ in range(rng.randint(2, 6))]
+        rows_t.append(dict(rows_t[0]))                     # at least one exact duplicate
+        raw.append(rows_t)
+    for c in ("a", "b"):
+        for t in range(nraw):
+            if all(r[c] is None for r in raw[t]):
+                raw[t][0][c] = "x"
+                raw[t][-1][c] = "x"
+    return {"raw_tables": raw, "backend": backend, "link_type": lt, "names": names, "tables": tables, "comparisons": comps,
             "rules": rules, "prior": rng.choice([0.01, 0.1, 0.3, 0.5, 0.9]),
             "num_bins": rng.choice([3, 5, 10, 30, 100]), "top_n": rng.choice([1, 2, 3, 10]), "bottom_n": rng.choice([1, 2, 10]),
             "completeness_cols": rng.choice([None, None, ["a"], ["b", "c"]])}
@@ -211,6 +225,29 @@ def run_impl(case):
     profile_columns(frames_of(case), papi, column_expressions=list(COLS), top_n=case.get("top_n", 10),
                     bottom_n=case.get("bottom_n", 10))
     res["profile"] = pcap
+    if case.get("raw_tables"):
+        raw_frames = []
+        for rows_t in case["raw_tables"]:
+            d = pd.DataFrame(rows_t, columns=["a", "b"])
+            d["a"] = d["a"].astype("string")
+            d["b"] = d["b"].astype("string")
+            raw_frames.append(d)
+        raw_names = [f"raw{i}" for i in range(len(raw_frames))]
+        if case["backend"] == "duckdb":
+            api = su.make_api("duckdb")
+            res["raw_completeness"] = completeness_data(api.register_multiple_tables(raw_frames), api, None, raw_names)
+        papi = su.make_api(case["backend"])
+        pcap2 = {}
+        porig2 = papi.sql_pipeline_to_splink_dataframe
+
+        def pwrapped2(pipeline, use_cache=True):
+            sdf = porig2(pipeline, use_cache)
+            pcap2[sdf.templated_name] = sdf.as_record_dict()
+            return sdf
+        papi.sql_pipeline_to_splink_dataframe = pwrapped2
+        profile_columns(raw_frames, papi, column_expressions=["a", "b"], top_n=case.get("top_n", 10),
+                        bottom_n=case.get("bottom_n", 10))
+        res["raw_profile"] = pcap2
     res["self_link"] = lk._self_link().as_record_dict()
     res["unlinkables"] = unlinkables_data(lk)
     return res
@@ -304,36 +341,46 @@ def build(case, res):
                 t = p.get(f"tf_{col}_{side}")
                 if (v is None and t is not None) or (v is not None and t != tfv.get(v)):
                     bad.append(("tf_scoring", f"pair scored with tf_{col}_{side}={t} for value {v!r}; tf table says {tfv.get(v)}"))
-    # ---- completeness
-    if "completeness" in res:
-        cols = case["completeness_cols"] or (["unique_id"] + COLS)
-        dsid = {nm: i for i, nm in enumerate(case["names"])}
-        got_cols = sorted({x["column_name"] for x in res["completeness"]})
+    # ---- completeness (linker-style tables, and raw tables with exact duplicate rows)
+    raw_rows = [(f"raw{t}", r) for t, tab in enumerate(case.get("raw_tables") or []) for r in tab]
+    raw_names = [f"raw{t}" for t in range(len(case.get("raw_tables") or []))]
+    main_rows, main_names = rows, case["names"]
+    for view, rows, vnames, vres, vcols in (
+            ("", main_rows, main_names, res.get("completeness"), case["completeness_cols"] or (["unique_id"] + COLS)),
+            ("raw ", raw_rows, raw_names, res.get("raw_completeness"), ["a", "b"])):
+        if vres is None:
+            continue
+        cols = vcols
+        dsid = {nm: i for i, nm in enumerate(vnames)}
+        res_completeness = vres
+        got_cols = sorted({x["column_name"] for x in res_completeness})
         if got_cols != sorted(cols):
             bad.append(("completeness", f"columns reported {got_cols} expected {sorted(cols)}"))
         for col in cols:
             cells = [(dsid[nm], None if r[col] is None else 1) for nm, r in rows]
             impl = sorted((dsid.get(x["source_dataset"], -1), int(x["total_null_rows"]), int(x["total_rows_inc_nulls"]),
-                           Fraction(x["completeness"])) for x in res["completeness"] if x["column_name"] == col)
+                           Fraction(x["completeness"])) for x in res_completeness if x["column_name"] == col)
             terms.append(f"(CCompl {coq_list([f'({coq_Z(d)}, {coq_opt(v, coq_Z)})' for d, v in cells], '(Z * option Z)')} "
                          f"{coq_list([f'({coq_Z(d)}, {coq_Z(a)}, {coq_Z(b)}, {coq_Q(c)})' for d, a, b, c in impl], '(Z * Z * Z * Q)')})")
-            labels.append(("completeness", col))
-            for d in range(len(case["names"])):
+            labels.append(("completeness", view + col))
+            for d in range(len(vnames)):
                 tot = sum(1 for x, _ in cells if x == d)
                 nn = sum(1 for x, v in cells if x == d and v is not None)
                 row = [i for i in impl if i[0] == d]
                 if len(row) != 1 or row[0][1] != tot - nn or row[0][2] != tot or abs(row[0][3] - Fraction(nn, tot)) > Fraction(1, 10**6):
-                    bad.append(("completeness", f"column {col} dataset {case['names'][d]}: reported {row} but {nn} of {tot} cells are non-null"))
-    # ---- profile_columns
-    prof = res.get("profile")
-    if prof is not None:
+                    bad.append(("completeness", f"{view}column {col} dataset {vnames[d]}: reported {row} but {nn} of {tot} cells are non-null"))
+    rows = main_rows
+    # ---- profile_columns (same two views)
+    for view, rows, prof, pcols in (("", main_rows, res.get("profile"), COLS), ("raw ", raw_rows, res.get("raw_profile"), ["a", "b"])):
+        if prof is None:
+            continue
         need = ["__splink__df_all_column_value_frequencies", "__splink__df_percentiles", "__splink__df_top_n", "__splink__df_bottom_n"]
         if any(k not in prof for k in need):
             bad.append(("profile", f"tables computed by profile_columns: {sorted(prof)}"))
         else:
             ntop, nbot = case.get("top_n", 10), case.get("bottom_n", 10)
-            for col in COLS:
-                ids = value_ids(case, col)
+            for col in pcols:
+                ids = {v: i for i, v in enumerate(sorted({r[col] for _, r in rows if r[col] is not None}))}
                 colv = [None if r[col] is None else ids[r[col]] for _, r in rows]
                 nn = [v for v in colv if v is not None]
                 fr = {v: nn.count(v) for v in set(nn)}
@@ -356,7 +403,7 @@ def build(case, res):
                              f"({coq_Z(tot[0])}, {coq_Z(tot[1])}, {coq_Z(tot[2])}) "
                              + coq_list([f"({coq_Z(a)}, {coq_Z(b)}, {coq_Q(c)}, {coq_Q(d)})" for a, b, c, d in ipc], "(Z * Z * Q * Q)")
                              + f" {ntop}%nat {nbot}%nat {zz(itop)} {zz(ibot)})")
-                labels.append(("profile", col))
+                labels.append(("profile", view + col))
                 if dict(ivf) != fr or len(ivf) != len(fr):
                     bad.append(("profile", f"column {col}: value counts {ivf} but the data has {sorted(fr.items())}"))
                 if tot != (len(nn), len(colv), len(fr)):
@@ -375,6 +422,7 @@ def build(case, res):
                     bad.append(("profile", f"column {col}: top {itop} / bottom {ibot} but sorted counts are {sizes}"))
                 if any(fr.get(v) != c for v, c in itop + ibot):
                     bad.append(("profile", f"column {col}: a listed top/bottom value is not a value of the data with that count"))
+    rows = main_rows
     # ---- pair-level outputs
     preds = res["predict"]
     gcols = [f"gamma_{c['col']}" for c in case["comparisons"]]
